@@ -3018,6 +3018,7 @@ func (rl *clientConnReadLoop) processSettingsNoWrite(f *SettingsFrame) error {
 	}
 
 	var seenMaxConcurrentStreams bool
+	oldMaxConcurrentStreams := cc.maxConcurrentStreams
 	err := f.ForeachSetting(func(s http2.Setting) error {
 		switch s.ID {
 		case http2.SettingMaxFrameSize:
@@ -3071,6 +3072,11 @@ func (rl *clientConnReadLoop) processSettingsNoWrite(f *SettingsFrame) error {
 			cc.maxConcurrentStreams = defaultMaxConcurrentStreams
 		}
 		cc.seenSettings = true
+	}
+	if cc.maxConcurrentStreams > oldMaxConcurrentStreams {
+		// A RoundTrip waiting in awaitOpenSlotForStreamLocked has to look
+		// again when the limit goes up.
+		cc.cond.Broadcast()
 	}
 
 	return nil
